@@ -13,6 +13,7 @@ from .c01 import msg
 
 PROP = 'C08'
 HOLDS = [0.0002, 0.001, 0.005]
+HOLDS_FAULT = [0.001, 0.005]
 LIBDIR = os.path.join(os.path.realpath(REPO), 'j1939') + os.sep
 
 
@@ -55,16 +56,29 @@ def run_one(sc, stack, points, seed=0, keep=False):
     pre = Preempt(stack, points)
     d = Driver(sc, (), seed, trace_factory=pre)
     try:
+        if sc.get('drop'):
+            sc = dict(sc, horizon=4.6)
+            d.sc = sc
         d.run()
-        probs = d.standard_problems()
+        if sc.get('drop'):
+            # a lost frame: exact payload or nothing, everything given up, job threads alive (C06's outcome)
+            probs = list(d.probs)
+            jd = [p for p in d.net.judge_deliveries() if 'unexpected []' not in p]
+            if jd:
+                probs.append("receiver got a payload that is not the one sent: " + jd[0])
+            probs += d.net.job_problems()
+            probs += d.net.idle_problems()
+        else:
+            probs = d.standard_problems()
         return pre.count, probs, d.net.outcome(), pre.where, d.net.trace() if keep else None
     finally:
         d.net.close()
 
 
 def csig(probs, where):
-    s = sig_of(probs)
-    return s
+    if probs[0].startswith('receiver got a payload'):
+        return 'receiver got a payload that is not the one sent'
+    return sig_of(probs)
 
 
 def worker(item):
@@ -72,7 +86,7 @@ def worker(item):
     acc = Acc()
     if pairs is None:
         for i in range(lo, hi):
-            for dur in HOLDS:
+            for dur in (HOLDS_FAULT if sc.get('drop') else HOLDS):
                 n, probs, outcome, where, _ = run_one(sc, stack, [(i, dur)], seed)
                 acc.case((repr(sc), stack, i, dur), outcome=outcome)
                 if probs:
@@ -108,10 +122,29 @@ def scenarios(tier):
             sc = two(dll, 2, 3)
             sc['msgs'] = [msg(0x10, 'p2p', 0x20, seg * 3 - 1), msg(0x20, 'p2p', 0x10, seg * 2 + 1)]
             out.append(sc)
+        # pre-emption while timeouts are being served: the same transfers with every single frame lost
+        for (wa, wb) in (((1, 1),) if quick else ((1, 1), (2, 2), (255, 255))):
+            npk = 2 if quick else 3
+            base = two(dll, wa, wb)
+            base['msgs'] = [msg(0x10, 'p2p', 0x20, seg * npk - 2)]
+            nfr = baseline_frames(base)
+            for k in range(nfr):
+                sc = dict(base, drop=[k])
+                out.append(sc)
     return out
 
 
-RULE = ("scenario = layer x {RTS/CTS with windows 1, 2, all; BAM} x 3 (thorough 2..4) packets, bus latency 0.1 ms; a baseline run "
+def baseline_frames(sc):
+    d = Driver(sc, (), 0)
+    try:
+        d.run()
+        return len(d.net.bus.log)
+    finally:
+        d.net.close()
+
+
+RULE = ("scenario = layer x {RTS/CTS with windows 1, 2, all; BAM} x 3 (thorough 2..4) packets, bus latency 0.1 ms, plus the same RTS/CTS "
+        "transfers with every single frame lost (so that the passes that serve timeouts and aborts are pre-empted too); a baseline run "
         "numbers the line events the job thread of each stack executes inside the library; then every line event x hold duration "
         "{0.2,1,5 ms} x either stack is one run with one pre-emption (exhaustive); thorough adds all ordered pairs of line events on the "
         "smallest scenario of each kind; distinct by (scenario, stack, line event(s), hold); all non-trivial")
